@@ -136,7 +136,7 @@ class Check:
         # arrival order: sometimes adversarial w.r.t. the first key
         nm = gen.node_map(world)
         k0 = keys[0]["key"]
-        cls = rng.choice(["random", "random", "sorted", "reversed", "key_asc", "key_desc"])
+        cls = rng.choice(["random", "random", "sorted", "reversed", "key_asc", "key_desc", "key_strasc", "key_strasc"])
 
         def keyf(node):
             if k0 in ("size", "size + 1"):
@@ -146,7 +146,11 @@ class Check:
             if k0 == "modified":
                 return node.get("mtime", 0)
             return node["path"].rsplit("/", 1)[-1]
-        _, orders = gen.gen_orders(rng, world, cls=cls, key=keyf)
+        if cls == "key_strasc":
+            # already ascending when the key values are compared as plain strings (100, 25, 3, 7), whatever the key's type
+            _, orders = gen.gen_orders(rng, world, cls="key_asc", key=lambda nd: str(keyf(nd)))
+        else:
+            _, orders = gen.gen_orders(rng, world, cls=cls, key=keyf)
         _, plan = gen.gen_env(rng, world)
         plan["order"] = orders
         st = gen_stat_overlay(rng, world)
